@@ -7,23 +7,23 @@ namespace Ctrmml.Codec
 open Ctrmml.Mds Ctrmml.Seq Tables
 
 /-- `EvOk` for a list of events -/
-def SegOk (nS nM : Nat) (e : Enc) (es : List MEv) (T : List Tk) : Prop :=
+def SegOk (M : Mode) (nS nM : Nat) (e : Enc) (es : List MEv) (T : List Tk) : Prop :=
   ∃ e', encAll nS nM e es = .ok e' ∧ e.out <+: e'.out ∧ e'.breaks = e.breaks ∧ e'.segnoPos = e.segnoPos ∧
-    ∀ (seq : List Nat) (base mj : Nat) (s : St) (O : List Tk), e'.out <+: seq → Good e s O →
-      ∃ s1, Reach seq base mj s s1 ∧ Frame s s1 ∧ Good e' s1 (T.reverse ++ O)
+    ∀ (seq : List Nat) (base mj : Nat) (s : St) (O : List Tk), M.Sound seq base mj → e'.out <+: seq → Good M e s O →
+      ∃ s1, Reach seq base mj s s1 ∧ Frame s s1 ∧ Good M e' s1 (T.reverse ++ O)
 
-theorem segOk_nil (nS nM : Nat) (e : Enc) : SegOk nS nM e [] [] :=
-  ⟨e, rfl, List.prefix_refl _, rfl, rfl, fun _ _ _ s O _ g => ⟨s, .refl _, Frame.rfl' _, by simpa using g⟩⟩
+theorem segOk_nil (M : Mode) (nS nM : Nat) (e : Enc) : SegOk M nS nM e [] [] :=
+  ⟨e, rfl, List.prefix_refl _, rfl, rfl, fun _ _ _ s O _ _ g => ⟨s, .refl _, Frame.rfl' _, by simpa using g⟩⟩
 
-theorem segOk_cons {nS nM : Nat} {e : Enc} {ev : MEv} {es : List MEv} {T1 T2 : List Tk}
-    (h1 : EvOk nS nM e ev T1) (h2 : ∀ e1, encEv nS nM e ev = .ok e1 → SegOk nS nM e1 es T2) :
-    SegOk nS nM e (ev :: es) (T1 ++ T2) := by
+theorem segOk_cons {M : Mode} {nS nM : Nat} {e : Enc} {ev : MEv} {es : List MEv} {T1 T2 : List Tk}
+    (h1 : EvOk M nS nM e ev T1) (h2 : ∀ e1, encEv nS nM e ev = .ok e1 → SegOk M nS nM e1 es T2) :
+    SegOk M nS nM e (ev :: es) (T1 ++ T2) := by
   obtain ⟨e1, he1, p1, b1, sp1, sem1⟩ := h1
   obtain ⟨e2, he2, p2, b2, sp2, sem2⟩ := h2 e1 he1
   refine ⟨e2, by simp [encAll, he1, he2], p1.trans p2, b2.trans b1, sp2.trans sp1, ?_⟩
-  intro seq base mj s O hp g
-  obtain ⟨s1, r1, f1, g1⟩ := sem1 seq base mj s O (p2.trans hp) g
-  obtain ⟨s2, r2, f2, g2⟩ := sem2 seq base mj s1 _ hp g1
+  intro seq base mj s O hS hp g
+  obtain ⟨s1, r1, f1, g1⟩ := sem1 seq base mj s O hS (p2.trans hp) g
+  obtain ⟨s2, r2, f2, g2⟩ := sem2 seq base mj s1 _ hS hp g1
   exact ⟨s2, r1.trans r2, f1.trans f2, by simpa [List.reverse_append, List.append_assoc] using g2⟩
 
 theorem encAll_append (nS nM : Nat) (e : Enc) (a b : List MEv) :
@@ -38,25 +38,34 @@ theorem encAll_append (nS nM : Nat) (e : Enc) (a b : List MEv) :
     | error x => rfl
     | ok e1 => exact ih e1
 
-theorem segOk_append {nS nM : Nat} {e : Enc} {a b : List MEv} {T1 T2 : List Tk}
-    (h1 : SegOk nS nM e a T1) (h2 : ∀ e1, encAll nS nM e a = .ok e1 → SegOk nS nM e1 b T2) :
-    SegOk nS nM e (a ++ b) (T1 ++ T2) := by
+theorem segOk_append {M : Mode} {nS nM : Nat} {e : Enc} {a b : List MEv} {T1 T2 : List Tk}
+    (h1 : SegOk M nS nM e a T1) (h2 : ∀ e1, encAll nS nM e a = .ok e1 → SegOk M nS nM e1 b T2) :
+    SegOk M nS nM e (a ++ b) (T1 ++ T2) := by
   obtain ⟨e1, he1, p1, b1, sp1, sem1⟩ := h1
   obtain ⟨e2, he2, p2, b2, sp2, sem2⟩ := h2 e1 he1
   refine ⟨e2, by simp [encAll_append, he1, he2], p1.trans p2, b2.trans b1, sp2.trans sp1, ?_⟩
-  intro seq base mj s O hp g
-  obtain ⟨s1, r1, f1, g1⟩ := sem1 seq base mj s O (p2.trans hp) g
-  obtain ⟨s2, r2, f2, g2⟩ := sem2 seq base mj s1 _ hp g1
+  intro seq base mj s O hS hp g
+  obtain ⟨s1, r1, f1, g1⟩ := sem1 seq base mj s O hS (p2.trans hp) g
+  obtain ⟨s2, r2, f2, g2⟩ := sem2 seq base mj s1 _ hS hp g1
   exact ⟨s2, r1.trans r2, f1.trans f2, by simpa [List.reverse_append, List.append_assoc] using g2⟩
 
 /-- **lists of linear events** -/
-theorem encAll_lin (nS nM : Nat) : ∀ (es : List MEv), (∀ ev ∈ es, linEv ev = true) → ∀ e : Enc,
-    SegOk nS nM e es (ticks nS nM es)
-  | [], _, e => segOk_nil nS nM e
-  | ev :: es, hv, e => by
+theorem encAll_lin (M : Mode) (nS nM : Nat) : ∀ (es : List MEv), (∀ ev ∈ es, linEv ev = true) →
+    (∀ ev ∈ es, M.evOk ev = true) → ∀ e : Enc, SegOk M nS nM e es (ticks M nS nM es)
+  | [], _, _, e => segOk_nil M nS nM e
+  | ev :: es, hv, hm, e => by
     rw [ticks_cons]
-    exact segOk_cons (encEv_lin nS nM e ev (hv ev (by simp)))
-      (fun e1 _ => encAll_lin nS nM es (fun x hx => hv x (by simp [hx])) e1)
+    exact segOk_cons (encEv_lin M nS nM e ev (hv ev (by simp)) (hm ev (by simp)))
+      (fun e1 _ => encAll_lin M nS nM es (fun x hx => hv x (by simp [hx])) (fun x hx => hm x (by simp [hx])) e1)
+
+/-- the encoder side of `encAll_lin` -/
+theorem encAll_lin_total (nS nM : Nat) : ∀ (es : List MEv), (∀ ev ∈ es, linEv ev = true) → ∀ e : Enc,
+    ∃ e', encAll nS nM e es = .ok e' ∧ e.out <+: e'.out ∧ e'.breaks = e.breaks ∧ e'.segnoPos = e.segnoPos
+  | [], _, e => ⟨e, rfl, List.prefix_refl _, rfl, rfl⟩
+  | ev :: es, hv, e => by
+    obtain ⟨e1, h1, p1, b1, s1⟩ := encEv_lin_total nS nM e ev (hv ev (by simp))
+    obtain ⟨e2, h2, p2, b2, s2⟩ := encAll_lin_total nS nM es (fun x hx => hv x (by simp [hx])) e1
+    exact ⟨e2, by simp [encAll, h1, h2], p1.trans p2, b2.trans b1, s2.trans s1⟩
 
 /-! ### the terminator -/
 
@@ -66,14 +75,15 @@ theorem encEv_finish (nS nM : Nat) (e : Enc) (arg : Nat) :
     simp [encOther, mds_FINISH, mds_SEGNO]
   exact encEv_other (by decide) h
 
-theorem finish_run {seq : List Nat} {base mj : Nat} {e : Enc} {s : St} {O : List Tk} (g : Good e s O)
+theorem finish_run {M : Mode} {seq : List Nat} {base mj : Nat} (hS : M.Sound seq base mj) {e : Enc} {s : St}
+    {O : List Tk} (g : Good M e s O)
     (hc : s.calls = []) (hp : e.out ++ [mds_FINISH] <+: seq) :
     ∃ s1, Reach seq base mj s s1 ∧ step seq base mj s1 = .error .finished ∧ s1.out = O := by
-  obtain ⟨s1, r1, f1, i1⟩ := resolve (base := base) (mj := mj) g (b := mds_FINISH) (by decide) hp
+  obtain ⟨s1, r1, f1, i1⟩ := resolve (base := base) (mj := mj) hS g (b := mds_FINISH) (by decide) hp
   have r0 : seq[s1.pc]? = some mds_FINISH := by rw [i1.pc]; exact rd_at hp
   exact ⟨s1, r1, step_finish r0 (f1.calls.trans hc), i1.out⟩
 
-theorem good_init (ln lr : Option Nat) : Good {} { pc := 0, lastNote := ln, lastRest := lr } [] :=
+theorem good_init (ln lr : Option Nat) : Good Mode.plain {} { pc := 0, lastNote := ln, lastRest := lr } [] :=
   ⟨fun h => absurd rfl h, fun h => absurd rfl h, rfl, .inl ⟨by decide, rfl, rfl⟩⟩
 
 /-- from pc 0 with empty stacks and arbitrary register contents, the interpreter plays exactly `T`
@@ -100,15 +110,16 @@ theorem Plays.safe {bytes : List Nat} {base mj : Nat} {ln lr : Option Nat} {T : 
   rcases run_stop_of_reach (maxTicks := maxTicks) r hfin fuel with h | h | h <;> simp [h]
 
 /-- **C02, linear fragment.** -/
-theorem codec_roundtrip_linear (nS nM : Nat) (es : List MEv) (hv : ∀ ev ∈ es, linEv ev = true) (farg : Nat) :
+theorem codec_roundtrip_linear (nS nM : Nat) (es : List MEv) (hv : ∀ ev ∈ es, linEv ev = true)
+    (hm : ∀ ev ∈ es, Mode.plain.evOk ev = true) (farg : Nat) :
     ∃ bytes, convertTrack nS nM (es ++ [⟨mds_FINISH, farg⟩]) = .ok bytes ∧
-      ∀ (base mj : Nat) (ln lr : Option Nat), Plays bytes base mj ln lr (ticks nS nM es) := by
-  obtain ⟨e1, he1, _, _, _, sem⟩ := encAll_lin nS nM es hv {}
+      ∀ (base mj : Nat) (ln lr : Option Nat), Plays bytes base mj ln lr (ticks Mode.plain nS nM es) := by
+  obtain ⟨e1, he1, _, _, _, sem⟩ := encAll_lin Mode.plain nS nM es hv hm {}
   refine ⟨e1.out ++ [mds_FINISH], ?_, ?_⟩
   · simp [convertTrack, encAll_append, he1, encAll, encEv_finish, Except.map]
   · intro base mj ln lr
-    obtain ⟨s1, r1, f1, g1⟩ := sem (e1.out ++ [mds_FINISH]) base mj _ [] (List.prefix_append _ _) (good_init ln lr)
-    obtain ⟨s2, r2, hfin, ho⟩ := finish_run (base := base) (mj := mj) g1 (f1.calls) (List.prefix_refl _)
+    obtain ⟨s1, r1, f1, g1⟩ := sem (e1.out ++ [mds_FINISH]) base mj _ [] (Mode.plain_sound _ _ _) (List.prefix_append _ _) (good_init ln lr)
+    obtain ⟨s2, r2, hfin, ho⟩ := finish_run (base := base) (mj := mj) (Mode.plain_sound _ _ _) g1 (f1.calls) (List.prefix_refl _)
     exact ⟨s2, r1.trans r2, hfin, by simpa using ho⟩
 
 end Ctrmml.Codec
